@@ -70,6 +70,10 @@ EXT_SIGNATURES = {
     "shapely.geometry.MultiPoint": ("points",),
     "shapely.geometry.MultiLineString": ("lines",),
     "shapely.buffer": ("geometry", "distance"),
+    "numpy.zeros": ("shape", "dtype"),
+    "numpy.ones": ("shape", "dtype"),
+    "numpy.empty": ("shape", "dtype"),
+    "numpy.full": ("shape", "fill_value", "dtype"),
     "shapely.clip_by_rect": ("geometry", "xmin", "ymin", "xmax", "ymax"),
     "shapely.transform": ("geometry", "transformation"),
     "shapely.linestrings": ("coords",),
@@ -461,7 +465,9 @@ class Evaluator:
     def emit(self, kind, live, term, node):
         term = self._records_to_tuples(term)
         if live not in (TRUE, FALSE) and any(x[0] == "ite" for x in walk(term)):
-            term = prune(term, live)
+            pruned = prune(term, live)
+            if pruned != term:
+                term = fold_sub(pruned)  # a branch went away: a field read of the remaining record / display is that field
         if self._post and live != FALSE:
             # an inlined helper raised under some condition earlier in this statement: what follows runs otherwise
             live = AND(live, *self._post)
@@ -1168,12 +1174,21 @@ class Evaluator:
         self.block(st.body, inner)
         self.loop_stack.pop()
         body_env = self.env
+        pre_ = {n: env0.get(n) for n in assigned}
         self.env = env0
         for n in assigned:
             self.env[n] = ("loopout", n, lid)
         for n in _target_names(st.target):
             self.env[n] = ("loopout", n, lid)
         self.loops[lid].body_env = body_env  # type: ignore[attr-defined]
+        if not st.orelse:
+            # `v = d; for ...: if c: v = f(x); break` -- a variable that only changes on the way to the (single) `break` holds
+            # that value if the loop was left by it, else what it held before the loop
+            brk = [e for e in self.events if e.kind == "break" and e.loops and e.loops[-1] == lid]
+            if len(brk) == 1 and hasattr(brk[0], "env_at"):
+                for n in assigned:
+                    if pre_.get(n) is not None and body_env.get(n) == ("phi", n, lid) and brk[0].env_at.get(n) not in (None, ("phi", n, lid)):
+                        self.env[n] = ITE(("broke", lid), ("loopout", n, lid), pre_[n])
         if st.orelse:
             brk = [e for e in self.events if e.kind == "break" and e.loops and e.loops[-1] == lid]
             if not brk:
@@ -1760,6 +1775,7 @@ class Evaluator:
             if not (v[0] == "call" and v[1] == f):
                 ev = self.emit("call", live, ("call", f, tuple(args), ()), n)
                 ev.kw_order = []  # type: ignore[attr-defined]
+                self._emit_lambda_calls(f, args, live, n)  # the calls the local function makes happen here
                 return v
         if f == ("builtin", "slice") and "slice" not in self.env and not named and not spreads and 1 <= len(args) <= 3 \
                 and not any(a[0] == "star" for a in args):
@@ -2503,6 +2519,13 @@ class Evaluator:
         if not isinstance(t, tuple) or not t:
             return t
         t = tuple(self._fold_records(c) if isinstance(c, tuple) else c for c in t)
+        if isinstance(t[0], str) and t[0] == "call" and t[1] in (("builtin", "list"), ("builtin", "tuple")) and len(t[2]) == 1 and not t[3] \
+                and t[2][0][0] == "call" and self._is_record(t[2][0]):
+            # list(Rec(a, b)) after a substitution: the display of the fields in declaration order
+            ci_ = self.index.class_by_qual(t[2][0][1][1])
+            rv_ = self._record_values(ci_, t[2][0]) if ci_ is not None and any(b.split(".")[-1] == "NamedTuple" for b in ci_.ext_bases) else None
+            if rv_ is not None:
+                return (t[1][1], tuple(rv_.values()))
         if isinstance(t[0], str) and t[0] == "call" and not t[3] and not any(a[0] == "star" for a in t[2]):
             fn = t[1]
             if fn[0] == "lambda" or (fn[0] == "call" and fn[1] in (("ext", "operator.attrgetter"), ("ext", "operator.itemgetter"))):
@@ -2513,6 +2536,15 @@ class Evaluator:
                 v = expand_pure_calls(t, _SummariesShim(self), None, self.module)
                 if v != t:
                     return v
+        if isinstance(t[0], str) and t[0] in ("attr", "sub") and t[1][0] == "ite" and self._is_record(t[1]):
+            # a field of a conditional choice of records: the conditional choice of that field
+            if t[0] == "attr":
+                v = self._record_get(t[1], attr=t[2])
+            elif t[2][0] == "const" and isinstance(t[2][1], int) and not isinstance(t[2][1], bool):
+                v = self._record_get(t[1], index=t[2][1])
+            else:
+                v = None
+            return t if v is None else v
         if isinstance(t[0], str) and t[0] in ("attr", "sub") and t[1][0] == "call" and t[1][1][0] == "global" and t[1][1][2] == "class":
             if t[0] == "attr":
                 v = self._record_get(t[1], attr=t[2]) if self._is_record(t[1]) else None
